@@ -1199,9 +1199,9 @@ FD = "src/porepy/models/fracture_damage.py"
 MUTANTS = [
     _m("getter-returns-stored-array", AD_UTILS, "        value = data[loc][name][index].copy()\n",
        "        value = data[loc][name][index]\n", "R1", control=True),
-    _m("setter-stores-callers-array", AD_UTILS, "            data[loc][name][index] = values.copy()\n",
+    _m("setter-stores-callers-array", AD_UTILS, "            data[loc][name][index] = np.array(\n                values, dtype=np.result_type(values, float)\n            )\n",
        "            data[loc][name][index] = values\n", "R1", control=False),
-    _m("setter-asarray-is-no-copy", AD_UTILS, "            data[loc][name][index] = values.copy()\n",
+    _m("setter-asarray-is-no-copy", AD_UTILS, "            data[loc][name][index] = np.array(\n                values, dtype=np.result_type(values, float)\n            )\n",
        "            data[loc][name][index] = np.asarray(values)\n", "R1"),
     _m("shift-aliases-neighbour-slot", AD_UTILS, "data[location][name][i] = data[location][name][i - 1].copy()",
        "data[location][name][i] = data[location][name][i - 1]", "R1"),
